@@ -36,6 +36,10 @@ Refuting events (keys of the returned findings):
   f  colour missing / not a register of the class / not allocatable; the list
      returned differs from snapshot minus removed moves.
 Conflicts between two *physical* registers are never reported (ABI artefacts).
+A conflict with a live virtual register that is not defined on every path to
+that point (non-strict instruction list, e.g. a mips block that lost its branch
+and falls into a loop header) is not judged either: on such a path the
+register holds no value (counted in stats["nonstrict_skipped"]).
 """
 
 
@@ -436,6 +440,19 @@ def check_frame(arch, frame, snap, rec=None):
     if missing:
         report("f", "jump target not in the instruction list: %s" % (missing[:3],))
     reach = reachable(succ, n)
+    # A reachable instruction without ``jumps`` directly in front of a jump target (delay-slot nops behind a
+    # jump are unreachable and do not count): the block lost its terminating
+    # branch (seen on mips only).  ppci's flow graph has no edge there, the machine falls through; the
+    # allocator's input has no defined control flow at that point and the frame is not judged.
+    is_target = [False] * n
+    for i, ss in enumerate(succ):
+        if instrs[i].jumps:
+            for k in ss:
+                is_target[k] = True
+    for i in range(n - 1):
+        if reach[i] and not instrs[i].jumps and is_target[i + 1]:
+            stats["skipped_flow_incomplete"] = 1
+            return [f for f in findings if f["event"] == "f"], stats
     uses = [{id(r) for r in u} for u in U]
     defs = [{id(r) for r in d} for d in D]
     live_in, live_out = liveness(n, succ, pred, uses, defs)
@@ -449,6 +466,21 @@ def check_frame(arch, frame, snap, rec=None):
         if type(p) is not type(q):
             stats["alias_pairs"] += 1     # comparison decided by the alias relation (different classes)
         return alias.overlap(p, q)
+
+    # must-definition of virtual registers (used by c, and as strictness guard by a/b)
+    vkeys = {k for k, r in regs.items() if is_virtual(r)}
+    vdefs = [dd & vkeys for dd in defs]
+    d_in = must_defined(n, succ, pred, vdefs, vkeys, reach)
+    stats["nonstrict_skipped"] = 0
+
+    def strict_here(i, k):
+        """A live virtual register that is not defined on every path to the point after i holds no value
+        on some path (only instruction lists that are already non-strict in the allocator's input, e.g.
+        mips blocks without their branch, show this); conflicts with it are not judged."""
+        if k not in vkeys or k in d_in[i] or k in defs[i]:
+            return True
+        stats["nonstrict_skipped"] += 1
+        return False
 
     # ---- (a) Chaitin criterion at every definition, (b) clobbers
     for i, ins in enumerate(instrs):
@@ -471,7 +503,7 @@ def check_frame(arch, frame, snap, rec=None):
                     if ins.ismove and ko == src and kd == id(D[i][0]):
                         continue   # destination may share with the source of its own move
                     stats["pairs_compared"] += 1
-                    if ov(kd, ko):
+                    if ov(kd, ko) and strict_here(i, ko):
                         report("a", "%s (defined here) and %s (live after) both occupy %s/%s" % (
                             r.name, o.name, getattr(phys[kd], "name", None), getattr(phys[ko], "name", None)), i)
         if C[i]:
@@ -483,14 +515,11 @@ def check_frame(arch, frame, snap, rec=None):
                     if not is_virtual(o):
                         continue
                     p = phys[ko]
-                    if p is not None and (p is c or alias.overlap(p, c)):
+                    if p is not None and (p is c or alias.overlap(p, c)) and strict_here(i, ko):
                         report("b", "clobber of %s destroys %s (in %s) which is live after the instruction" % (
                             c.name, o.name, p.name), i)
 
     # ---- (c) every use of a virtual register has a definition on every path
-    vkeys = {k for k, r in regs.items() if is_virtual(r)}
-    vdefs = [dd & vkeys for dd in defs]
-    d_in = must_defined(n, succ, pred, vdefs, vkeys, reach)
     input_undefined = getattr(rec, "input_undefined", None) if rec is not None else None
     stats["input_undefined_registers"] = len(input_undefined or ())
     for i in range(n):
